@@ -582,14 +582,34 @@ theorem fates_of_loop (one : Int) (hs : List HeadInfo) (cs : List Nat) (l : Nat)
   rw [resolveFates_eq, filter_resolveGroups one h.loop g (groupsOf hs) cs (groupsOf_keys_nodup hs) (groupsOf_loopsOk hs) hg, hge]
   rfl
 
-theorem fateOf_cowin {w h : HeadInfo} : fateOf w h = Fate.cowin ↔ h.ev = w.ev := by
+theorem fateOf_cowin {w h : HeadInfo} : fateOf w h = Fate.cowin ↔ sameEv w h = true := by
   unfold fateOf
-  by_cases e : h.ev = w.ev
-  · simp [e]
-  · simp only [e, if_false]
-    constructor
-    · intro h'; split at h' <;> simp at h'
-    · intro h'; exact h'.elim
+  cases e : sameEv w h with
+  | true => simp
+  | false =>
+    simp only [Bool.false_eq_true, if_false, iff_false]
+    split <;> simp
+
+theorem sameEv_ev {w h : HeadInfo} (e : sameEv w h = true) : h.ev = w.ev := by
+  unfold sameEv at e
+  simp only [Bool.and_eq_true, beq_iff_eq] at e
+  exact e.1
+
+/-- identical Start events of two action instances agree (the flows will share the started action) -/
+theorem sameEv_of_start {w h : HeadInfo} (e : h.ev = w.ev) (hs : w.isStart = true) : sameEv w h = true := by
+  unfold sameEv
+  cases w.act <;> cases h.act <;> simp [e, hs]
+
+/-- events that are not both bound to an action instance agree when name and arguments agree -/
+theorem sameEv_of_noact {w h : HeadInfo} (e : h.ev = w.ev) (hn : w.act = none ∨ h.act = none) : sameEv w h = true := by
+  unfold sameEv
+  rcases hn with hn | hn <;> rw [hn] <;> cases w.act <;> cases h.act <;> simp [e]
+
+/-- events of one and the same action instance agree when name and arguments agree -/
+theorem sameEv_of_same_action {w h : HeadInfo} (e : h.ev = w.ev) (ha : h.act = w.act) : sameEv w h = true := by
+  unfold sameEv
+  rw [ha]
+  cases w.act <;> simp [e]
 
 /-- every entry of a group's result is the picked head or another head classified against it -/
 theorem resolveGroup_cases (one : Int) (g : List HeadInfo) (c : Nat) (hg : g ≠ []) :
